@@ -132,6 +132,34 @@ def r05b(ctx, P):
                    "the cached live-docs map is reused at %s without the generation comparison" % Site(commit, b).loc(),
                    Site(commit, b).loc())
     ctx.floor(rid, n, 1, "reuse of the cached live-docs map in commit")
+    # every READ of the handle's cached table (not only a clone of it) sits on the equal arm: a table that is "refreshed" from the
+    # cache and the newer segments carries stale addresses of documents another handle re-added or deleted in between
+    eq_arms = []
+    preds = commit.preds()
+    for a in commit.reachable():
+        tt = commit.blocks[a]["term"]
+        if tt["k"] != "switch":
+            continue
+        srcs = sl.sources(tt["on"])
+        if any(s_[0] == "binop" and s_[1] == "Eq" for s_ in srcs) and any(s_[0] == "field" and "live_generation" in s_[2] for s_ in srcs):
+            vals = dict(zip(tt["values"], tt["targets"]))
+            ts = tt["otherwise"] if 0 in vals else vals.get(1)
+            if ts is not None and set(preds.get(ts, [])) == {a}:
+                eq_arms.append(ts)
+    reads = []
+    for b, i, st in commit.stmts():
+        if st["k"] != "assign":
+            continue
+        rv = st["rv"]
+        pl = rv.get("place") if rv["k"] == "ref" and not rv.get("mut") else (op_place(rv["a"]) if rv["k"] in ("use", "cast") else None)
+        if pl and pl["l"] == 1 and any(isinstance(e, dict) and e.get("f") == "live_docs" for e in pl["p"]):
+            reads.append(Site(commit, b, i))
+    stale = [r for r in reads if not any(commit.dominates_block(a, r.b) for a in eq_arms)]
+    ctx.ob(rid, "%s:commit:cached-live-docs-read-only-when-current" % rid, bool(reads) and not stale,
+           "every read of the cached live-docs map (%d) lies on the equal-generation arm" % len(reads) if reads and not stale else
+           ("the cached live-docs map is read at %s outside the equal-generation arm: entries cached before another handle's commit "
+            "(re-added or deleted documents) flow into the table this commit works on" % stale[0].loc() if stale else
+            "no read of the cached live-docs map found"), stale[0].loc() if stale else "%s:%s" % (commit.file, commit.line))
 
 
 SUBSET_ADAPTERS = ("::filter", "::filter_map", "::take", "::take_while", "::skip", "::skip_while", "::step_by", "::find",
